@@ -400,4 +400,42 @@ theorem vm_complete_sf (r : Re) (hr : starFree r = true) (hsz : (emit false r 0)
   exact complete_of_cdirS (fwdCS e hfb) r (starFree_sound hr) hsz hid (by subst he; rfl) (by subst he; rfl) (by subst he; exact hx)
     (by subst he; exact hsc) m c h L hmax (by subst he; exact hm)
 
+theorem rev_consLeaf {r : Re} (h : consLeaf r = true) : rev r = r := by
+  cases r <;> simp [consLeaf] at h <;> rfl
+
+/-- reading backwards from the start position, every consuming leaf -/
+def bwdCS (e : Env) (h : BwdByte e) : CDirS e where
+  toCDir := bwdC e h
+  leafS := by
+    intro r a q t f hl hc hip hm ht
+    obtain ⟨hqt0, hts, hm⟩ := hm
+    rw [rev_consLeaf hl] at hm
+    obtain ⟨h1, h2⟩ := leaf_consume (cs_one_b h) hl hc hip (bm := q) hm
+    have ht' : t = q + 1 := by omega
+    refine ⟨ht', h2 ?_ (by omega)⟩
+    rw [inp_bwd h (by omega)]
+    congr 1; omega
+  eps := by
+    intro q t hm
+    obtain ⟨hqt0, hts, hm⟩ := hm
+    have := (ends_iff_Matches _ _ _ _ _).2 hm
+    simp [rev, Re.ends] at this
+    omega
+
+/-- the same for the BACKWARD code (the forward code of the mirrored expression, run with RE_FLAGS_BACKWARDS) -/
+theorem vm_complete_sf_bwd (r : Re) (hr : starFree (rev r) = true) (hsz : (emit true r 0).1.length < 32000) (hid : (emit true r 0).2 ≤ 256)
+    (buf : Bytes) (start : Nat) (hst : start ≤ buf.size)
+    (fl : VmFlags) (hw : fl.wide = false) (hb : fl.backwards = true) (hsc : fl.scan = false) (hx : fl.exhaustive = true)
+    (fuel : Nat) (m : Int) (c : List Nat)
+    (h : exec { code := (emitCode true r).toArray, entry := 0, buf := buf, start := start, fl := fl, syncFuel := fuel } = .done m c)
+    (L : Nat) (hL : L ≤ 1024) (hLs : L ≤ start) (hm : Re.Matches (specFlags fl) buf r (start - L) start) : L ∈ c := by
+  obtain ⟨e, he⟩ : ∃ e : Env, e = { code := (emitCode true r).toArray, entry := 0, buf := buf, start := start, fl := fl, syncFuel := fuel } := ⟨_, rfl⟩
+  rw [← he] at h
+  have hbb : BwdByte e := by subst he; exact ⟨hw, hb, hst⟩
+  have hmax : L ≤ e.maxBytes := by rw [maxBytes_bwd hbb]; subst he; show L ≤ min start 1024; omega
+  rw [emit_rev] at hsz hid
+  have hcode : e.code = ((emit false (rev r) 0).1 ++ [0xAD]).toArray := by subst he; simp only [emitCode, emit_rev]
+  exact complete_of_cdirS (bwdCS e hbb) (rev r) (starFree_sound hr) hsz hid hcode (by subst he; rfl) (by subst he; exact hx) (by subst he; exact hsc)
+    m c h L hmax ⟨Nat.zero_le _, by subst he; exact hLs, by subst he; rw [rev_rev]; exact hm⟩
+
 end YaraModel.ReEmit
